@@ -12,6 +12,8 @@ CONSTANTS
   EarlyFlag = FALSE
   StickyGuard = FALSE
   EarlyUnreg = FALSE
+  ClosedOnlyWait = FALSE
+  StaleOverwrite = FALSE
   Hist = FALSE
 INVARIANT TypeOK
 INVARIANT Inv_AllDead
